@@ -330,6 +330,10 @@ def check_handle_yield(ck):
             calls = [x for x in own_walk(inner.node) if isinstance(x, ast.Call)]
             ok = any(q.dotted(x.func) == "self.ctx_run" and x.args and q.dotted(x.args[0]) == "self.run" for x in calls) and not any(q.dotted(x.func) == "self.run" for x in calls)
             ck.ob("C37.ctx-run", inner, inner.node, ok, "the wake-up resumes the coroutine through ctx_run(self.run)", construct="inner resumes via ctx_run")
+        elif isinstance(cb, ast.Lambda):
+            calls = [x for x in ast.walk(cb.body) if isinstance(x, ast.Call)]
+            ok = any(q.dotted(x.func) == "self.ctx_run" and x.args and q.dotted(x.args[0]) == "self.run" for x in calls) and not any(q.dotted(x.func) == "self.run" for x in calls)
+            ck.ob("C37.ctx-run", hy, cb, ok, "the wake-up resumes the coroutine through ctx_run(self.run)", construct="wake-up lambda resumes via ctx_run")
         else:
             raise AnalysisError("%s: wake-up callback in an unrecognised shape" % hy.site(c))
     # conversion errors become a failed future that is thrown into the generator
